@@ -90,6 +90,17 @@ Theorem C17_constraints_only_touch : forall (cs : list (nat * nat * Q)) (fs : li
 Proof. exact constraints_only_touch. Qed.
 Print Assumptions C17_constraints_only_touch.
 
+(* the numbers the source picks for a supported node (addDispConstraints, regenerated as asm_supported_numbers) get the
+   trivial equation: unit diagonal, zero row and column, zero load *)
+Theorem C17_numbers_the_source_picks_for_a_support_get_the_trivial_equation :
+  forall (cs : list (nat * nat * Q)) (fs : list (nat * Q)) (nodes : list (link * dof3)) l d i j,
+  In (l, d) nodes -> In i (asm_supported_numbers (lk_dx l) (lk_dy l) (lk_rz l) d) ->
+  k_final cs (supported_of nodes) i j == (if Nat.eqb i j then 1 else 0) /\
+  k_final cs (supported_of nodes) j i == (if Nat.eqb j i then 1 else 0) /\
+  f_final fs (supported_of nodes) i == 0.
+Proof. exact supported_number_is_trivial. Qed.
+Print Assumptions C17_numbers_the_source_picks_for_a_support_get_the_trivial_equation.
+
 (* what the superposition means for a displacement vector: row i of (accumulated matrix) x u is the sum
    of the forces the finite elements exert at number i - each element's stiffness (as assembled)
    times that element's own six displacements, placed at its six numbers *)
